@@ -12,6 +12,7 @@ import (
 	"os"
 	"os/exec"
 	"path/filepath"
+	"sort"
 	"strings"
 	"sync/atomic"
 	"time"
@@ -91,6 +92,10 @@ func c12Monitor(o *c12Obs) (fails []Failure, timing map[string]bool) {
 	}
 	if strings.HasPrefix(o.Err, "stalled:") {
 		return // three attempts, each frozen for a second or more: skipped (counted in stats), not judged
+	}
+	if o.StoppedEarly != "" {
+		add("shutdown/accept-loop-stopped-before-shutdown", "after one transient Accept error (EMFILE while a client was connecting, RLIMIT_NOFILE lowered for 40 ms) the server no longer took connections / tars.Run returned although no shutdown had been requested: "+o.StoppedEarly, false)
+		return
 	}
 	if o.Err != "" {
 		add("shutdown/scenario-did-not-run", "the scenario could not be run: "+o.Err, false)
@@ -201,6 +206,22 @@ func c12Monitor(o *c12Obs) (fails []Failure, timing map[string]bool) {
 		if drained && first("eof", ci, 0) < 0 {
 			add("shutdown/returned-with-open-connection", fmt.Sprintf("Shutdown returned after %d ms (grace %d ms) although connection %d was never closed", dur, scn.GraceMs, ci), false)
 		}
+	}
+	if drained && running > 0 {
+		var who []string
+		open := map[c12Key]bool{}
+		for _, e := range o.Events[:posRet] {
+			if e.K == "start" {
+				open[c12Key{e.C, e.R}] = true
+			} else if e.K == "end" {
+				delete(open, c12Key{e.C, e.R})
+			}
+		}
+		for k := range open {
+			who = append(who, fmt.Sprintf("request %d of connection %d", k.r, k.c))
+		}
+		sort.Strings(who)
+		add("shutdown/returned-with-requests-outstanding", fmt.Sprintf("Shutdown returned after %d ms (grace %d ms, context not expired) while %d handler(s) were still executing: %s", dur, scn.GraceMs, running, strings.Join(who, ", ")), false)
 	}
 	if first("start", late, 0) >= 0 || first("resp", late, 0) >= 0 {
 		add("shutdown/accepted-after-listen-closed", "a connection opened after isListenClosed >= 1 was served", false)
@@ -449,6 +470,27 @@ func c12Gen(tier string, rng *rand.Rand) []c12Case {
 			{}, {Pre: []int{0}}, {Pre: []int{50, 0}, Pipelined: true}, {},
 			{Fresh: true}, {Fresh: true, Pre: []int{50}}, {Fresh: true, Pre: []int{300}, Post: []int{0}, PostDelayMs: 100}}}
 	}
+	// one busy connection among many connections idle for longer than the idle threshold: whatever order the poller
+	// visits them in, Shutdown must not return before the busy request is answered
+	busyAmongIdle := func(pool, idle, quietMs int, sig string) c12Scn {
+		var cs []c12ConnScn
+		for i := 0; i < idle; i++ {
+			cs = append(cs, c12ConnScn{Pre: []int{0}})
+		}
+		cs = append(cs, c12ConnScn{Fresh: true, Pre: []int{2400 + 100*rng.Intn(4)}})
+		rng.Shuffle(len(cs), func(a, b int) { cs[a], cs[b] = cs[b], cs[a] })
+		return c12Scn{Pool: pool, QuietMs: quietMs, GraceMs: 9000, Signal: sig, Conns: cs}
+	}
+	add(busyAmongIdle(0, 30, 2300, "DIRECT"))
+	add(busyAmongIdle(4, 24, 2600, "TERM"))
+	// a transient Accept error (EMFILE) while clients are connected, then new connections, then a graceful shutdown: the
+	// server keeps accepting, every client is notified and answered
+	acceptFault := func(pool int, sig string) c12Scn {
+		return c12Scn{Pool: pool, Signal: sig, Conns: []c12ConnScn{
+			{Pre: []int{0}}, {}, {Fresh: true, Faulted: true, Pre: []int{300}}, {Fresh: true, Pre: []int{50}, Post: []int{0}, PostDelayMs: 100}}}
+	}
+	add(acceptFault(0, "TERM"))
+	add(acceptFault(2, "DIRECT"))
 	add(quiet(0, 2500, 0, "TERM"))
 	add(quiet(4, 3500, 60000, "DIRECT"))
 	add(quiet(1, 3000, 0, "INT"))
@@ -474,6 +516,14 @@ func c12Gen(tier string, rng *rand.Rand) []c12Case {
 			s.SmallBuf = true
 			s.Conns = []c12ConnScn{{Pre: []int{durs[rng.Intn(len(durs))]}, Bulk: 4 << 20, ReadDelayMs: []int{300, 1200}[rng.Intn(2)]}}
 			add(s)
+			continue
+		}
+		if rng.Intn(14) == 0 {
+			add(busyAmongIdle(rng.Intn(5), 8+rng.Intn(33), 2200+100*rng.Intn(8), s.Signal))
+			continue
+		}
+		if rng.Intn(14) == 0 {
+			add(acceptFault(rng.Intn(5), s.Signal))
 			continue
 		}
 		if rng.Intn(12) == 0 {
